@@ -24,7 +24,8 @@ EXPLANATION = (
     ' Also: (R6) on the AmbiguousCommitError route no handler/finally deletes, and no handler along the chain converts or swallows the ambiguous error; (R7) the conditional pointer PUT is not retried.'
     ' (R8) who-may-delete census (shared with C09.R3).'
     ' (R10) a reused Transaction object starts empty: begin() resets _written_files / _inflight_markers (a non-deleting rollback keeps them on purpose) - shared with C01.R5.'
-    " R1 also requires the local backend (rename-published, nothing raising after the rename) to report clean write failures as clean; R7 requires the CAS conflict code set to be exactly S3's precondition-failure answers.")
+    " R1 also requires the local backend (rename-published, nothing raising after the rename) to report clean write failures as clean; R7 requires the CAS conflict code set to be exactly S3's precondition-failure answers."
+    ' R1 is decided by scenario for the three backend kinds (which write is reached; what a precondition failure / any other failure is reported as); R3 / R4 decide whether a _rollback(...) call deletes by binding its arguments (bool or enum) and walking _rollback.')
 NOT_DECIDED = ("the resulting table state after each fault; what S3 does with an errored PUT; double faults "
                "at run time")
 
